@@ -56,7 +56,7 @@ func c08Ops(rng *Rng, n int, allowText bool) []Action {
 				out = append(out, Action{Op: "header", S: "X-K" + strconv.Itoa(rng.Intn(3)), V: "v"})
 			}
 		case 5, 6, 7:
-			out = append(out, Action{Op: "write", S: c08Payload(rng)})
+			out = append(out, Action{Op: rng.Pick([]string{"write", "write", "write", "iowstr"}), S: c08Payload(rng)})
 		case 8:
 			out = append(out, Action{Op: "flush"})
 		case 9:
@@ -121,7 +121,7 @@ func genC08Route(rng *Rng, sc *Scenario, k int, faulty bool) (RegOp, Req) {
 	}
 	main = append(main, Action{Op: "obs"})
 	sc.Handlers[op.H] = main
-	rq := Req{Method: op.Methods[0], Path: op.Path}
+	rq := Req{Method: op.Methods[0], Path: op.Path, Plain: rng.Chance(1, 8)}
 	if faulty {
 		nf := rng.Range(1, 2)
 		for i := 0; i < nf; i++ {
@@ -351,7 +351,9 @@ func modelCommit(prop string, rec *ReqRec, rq *Req, judgePanicked, opaque bool) 
 				write(arg)
 			case "flush", "rcflush":
 				commit()
-				exp = append(exp, WCall{Op: "Flush"})
+				if !rq.Plain { // a writer without Flush: the header is committed, then the wrapper's type assertion panics
+					exp = append(exp, WCall{Op: "Flush"})
+				}
 			case "endofdispatch":
 				commit() // a nested dispatch (HandleContext) ended: like every dispatch it commits the header
 			case "httperr":
